@@ -102,6 +102,8 @@ impl Flusher {
                 events,
             )
             .await?;
+            #[cfg(sneldb_verif)]
+            crate::verif::step("flusher.type_written", &format!("\"seg\":{segment_id},\"type\":\"{event_type}\""));
         }
 
         // Only append SegmentIndex entry if at least one event type had non-empty events
